@@ -15,6 +15,8 @@ CONSTANTS
   Weak_NoParamsHashCompare = FALSE
   Weak_ValsNotHashed = FALSE
   Weak_BackwardsTargetNotRechecked = FALSE
+  Weak_LatestPanicsWhenUpToDate = FALSE
+  Weak_LatestUnverifiedWhenUpToDate = FALSE
   Weak_BackwardsCommitUnverified = FALSE
   CommitBlockIDValidated = FALSE
   Weak_SearchProofFromCachedBlock = TRUE
